@@ -47,7 +47,7 @@ class Engine:
     name = "pool"
     spec = "pool"
     property_id = "C12"
-    runs = {"quick": 24000, "thorough": 3000000}
+    runs = {"quick": 32000, "thorough": 5000000}
     wall = {"quick": 300, "thorough": 1200}
     selftest_n = {"quick": 48, "thorough": 256}
     chunk = 250
